@@ -413,6 +413,11 @@ func scenarioC10(x *runner.X) {
 		if ep, err := tryLoad(set); err == nil {
 			// one long-lived handle, every CID asked three times: what an earlier fetch left in the
 			// epoch's caches must not turn a later one into a success
+			// first the reads by location that the address index and the streams do (no CID to compare
+			// with): whatever they leave in the caches must not satisfy a later fetch by CID
+			for _, o := range w1.w.Objects {
+				ep.GetNodeByOffsetAndSize(context.Background(), nil, &indexes.OffsetAndSize{Offset: o.Offset, Size: o.SectionLen})
+			}
 		rounds:
 			for round := 0; round < 3; round++ {
 				for _, o := range w1.w.Objects {
@@ -442,6 +447,9 @@ func scenarioC10(x *runner.X) {
 			}
 			x.Fault("car-swap-shared-cache")
 			if ep1, err := srvLoad(set.write(filepath.Join(x.TempDir(), "foreigncar.yml"))); err == nil {
+				for _, o := range w1.w.Objects {
+					ep1.GetNodeByOffsetAndSize(context.Background(), nil, &indexes.OffsetAndSize{Offset: o.Offset, Size: o.SectionLen})
+				}
 			shared:
 				for round := 0; round < 2; round++ {
 					for _, o := range w1.w.Objects {
